@@ -231,9 +231,9 @@ func tallFamily(c *Ctx, prop string) {
 	// very tall family: 256..1025 leaves (rows 8..10; loop counters and shifts that are 8 bits wide
 	// live here): whole aligned halves and quarters, a leaf that climbed to row 8 and is then
 	// deleted, additions over the emptied root, and the undo of each
-	vtNs := []int{512}
+	vtNs := []int{255, 512}
 	if c.Thorough() {
-		vtNs = []int{256, 257, 512, 513, 1024, 1025}
+		vtNs = []int{255, 256, 257, 511, 512, 513, 1024, 1025}
 	}
 	vtStart := len(runs)
 	for _, N := range vtNs {
@@ -294,8 +294,19 @@ func tallFamily(c *Ctx, prop string) {
 		auNs = []int{11, 12, 13, 16, 20}
 	}
 	for _, N := range auNs {
+		// additions: none, one, up to the next power of two (overwrites every empty root on the
+		// way) and one more (a new row)
+		up := 1
+		for up < N {
+			up *= 2
+		}
+		ks := []int{0, 1}
+		if up-N > 1 {
+			ks = append(ks, up-N)
+		}
+		ks = append(ks, up-N+1)
 		for _, S := range alignedUnions(N, 3) {
-			for _, k := range []int{0, 1} {
+			for _, k := range ks {
 				runs = append(runs, run{hist: []Op{{Kind: "block", Adds: N}, {Kind: "block", Dels: S, Adds: k}}})
 			}
 		}
